@@ -1,9 +1,40 @@
-"""C08 — decoding the labels an encoder produced reconstructs the event sequence."""
+"""C08 — decoding the labels an encoder produced reconstructs the event sequence.
+
+Every sequence op drives one real EventSequenceEncoderDecoder object and returns the bundle
+  [input_size, num_classes, inputs@ps, labels@ps, decode(label p, events[:p])@ps, encode(events),
+   generation loop over the given labels from [], labels_to_num_steps(labels)]
+An entry that raises is [] (any exception class), a value is [value].  Input vectors are canonicalised to
+[len, [[index, value] for the non-zero entries]].
+"""
+import itertools
+import math
+
 from vt import coqgen as G
 
 ID = 'C08'
+RULE = ('(encoder configuration, event sequence, positions, label sequence) tuples: random sequences up to length 100 '
+        'with repeats planted at the lookback distances, lookback lists sorted / unsorted / with duplicates / longer than '
+        'the sequence / empty, counter widths 0..8, pitch ranges, velocity bins, shift limits; every sequence over a '
+        '3-symbol alphabet up to length 4 (quick) / 8 (thorough) with every duplicate-free lookback list over {1,2,3}; '
+        'a stream with invalid events / out-of-range labels / out-of-range positions for the error branches. '
+        'non-trivial = at least 2 events and at least one label that is produced and decoded; distinct by canonical input')
+ASSUMPTIONS = ['lookback distances are positive integers (0 and negative distances are modelled as Python behaves but '
+               'are outside the property)',
+               'events are values the wrapped one-hot encoding accepts (others take the error branch, which is compared '
+               'but not claimed)',
+               'cos/sin entries of the modulo-performance input are rebuilt in the harness from the modelled layout '
+               '(table, row) with the formulas of PerformanceModuloEncoding.__init__ and compared bit-exactly',
+               'the model follows note_seq WITH notes/C08-fix-1.diff and notes/C08-fix-2.diff applied']
+EXHAUSTIVE = {'quick': False, 'thorough': True}
+
+NO_EVENT, NOTE_OFF = -2, -1
+T_ON, T_OFF, T_SHIFT, T_VEL, T_DUR = 1, 2, 3, 4, 5
+
+OPS = {'onehot_mel': 1, 'onehotidx_mel': 2, 'lookback_mel': 3, 'keymelody': 4, 'onehot_perf': 5,
+       'lookback_perf': 6, 'modulo_perf': 7, 'noteperf': 8, 'pianoroll': 9, 'conditional': 10, 'noteperf_cfg': 11}
 
 
+# ---------------------------------------------------------------- regenerated constants
 def gen_coq():
     from note_seq import constants, performance_encoder_decoder as ped, performance_lib as pl
     s = G.HEADER
@@ -27,3 +58,770 @@ def gen_coq():
     s += G.defz('K_PERF_MIN_PITCH', pl.MIN_MIDI_PITCH)
     s += G.defz('K_PERF_MAX_PITCH', pl.MAX_MIDI_PITCH)
     return s
+
+
+# ---------------------------------------------------------------- helpers
+def _opt(f):
+    try:
+        return [f()]
+    except Exception:  # noqa  (the model has one error value; the class is not compared)
+        return []
+
+
+def _vec(v):
+    out = []
+    for i, x in enumerate(v):
+        if isinstance(x, int):
+            if x != 0:
+                out.append([i, x])
+            continue
+        x = float(x)
+        if x == 0.0:
+            continue
+        out.append([i, int(x)] if x == int(x) else [i, x.hex()])
+    return [len(v), out]
+
+
+def _dense(sv):
+    n, nz = sv
+    v = [0] * n
+    for i, x in nz:
+        v[i] = x
+    return v
+
+
+def _pe(e):
+    from note_seq.performance_lib import PerformanceEvent
+    return PerformanceEvent(event_type=e[0], event_value=e[1])
+
+
+def _pe_out(e):
+    return [e.event_type, e.event_value]
+
+
+def _npe(e):
+    return tuple(_pe(x) for x in e)
+
+
+def _npe_out(e):
+    return [_pe_out(x) for x in e]
+
+
+class _H(object):
+    """One real encoder object plus the codecs between wire events/labels and Python ones."""
+
+    def __init__(self, ed, ncls, ev_in=lambda e: e, ev_out=lambda e: e, lab_in=lambda l: l, lab_out=lambda l: l):
+        self.ed, self.ncls, self.ev_in, self.ev_out, self.lab_in, self.lab_out = ed, ncls, ev_in, ev_out, lab_in, lab_out
+
+
+def _handle(op, c):
+    from note_seq import encoder_decoder as ed, melody_encoder_decoder as med
+    from note_seq import performance_encoder_decoder as ped, pianoroll_encoder_decoder as pred
+    if op == 'onehot_mel':
+        e = ed.OneHotEventSequenceEncoderDecoder(med.MelodyOneHotEncoding(c['mn'], c['mx']))
+        return _H(e, e.num_classes)
+    if op == 'onehotidx_mel':
+        e = ed.OneHotIndexEventSequenceEncoderDecoder(med.MelodyOneHotEncoding(c['mn'], c['mx']))
+        return _H(e, e.num_classes)
+    if op == 'lookback_mel':
+        e = ed.LookbackEventSequenceEncoderDecoder(med.MelodyOneHotEncoding(c['mn'], c['mx']), list(c['ds']), c['bits'])
+        return _H(e, e.num_classes)
+    if op == 'keymelody':
+        e = med.KeyMelodyEncoderDecoder(c['mn'], c['mx'], list(c['ds']), c['bits'])
+        return _H(e, e.num_classes)
+    if op == 'onehot_perf':
+        e = ed.OneHotEventSequenceEncoderDecoder(ped.PerformanceOneHotEncoding(c['nb'], c['ms'], c['minp'], c['maxp']))
+        return _H(e, e.num_classes, _pe, _pe_out)
+    if op == 'lookback_perf':
+        e = ed.LookbackEventSequenceEncoderDecoder(
+            ped.PerformanceOneHotEncoding(c['nb'], c['ms'], c['minp'], c['maxp']), list(c['ds']), c['bits'])
+        return _H(e, e.num_classes, _pe, _pe_out)
+    if op == 'modulo_perf':
+        e = ped.ModuloPerformanceEventSequenceEncoderDecoder(c['nb'], c['ms'])
+        return _H(e, e.num_classes, _pe, _pe_out)
+    if op == 'noteperf':
+        e = ped.NotePerformanceEventSequenceEncoderDecoder(c['nvb'], c['msh'], c['mdu'], c['minp'], c['maxp'])
+        return _H(e, list(e.num_classes), _npe, _npe_out, tuple, list)
+    if op == 'pianoroll':
+        e = pred.PianorollEncoderDecoder(c['size'])
+        return _H(e, e.num_classes, tuple, list)
+    raise ValueError(op)
+
+
+def _bundle(h, es_w, ps, ls_w):
+    e = h.ed
+    es = [h.ev_in(x) for x in es_w]
+    ls = [h.lab_in(x) for x in ls_w]
+    out = [e.input_size, h.ncls]
+    out.append([_opt(lambda: _vec(e.events_to_input(es, p))) for p in ps])
+    labs = [_opt(lambda: e.events_to_label(es, p)) for p in ps]
+    out.append([[h.lab_out(l[0])] if l else [] for l in labs])
+    dec = []
+    for p, l in zip(ps, labs):
+        if 0 <= p < len(es) and l:
+            dec.append(_opt(lambda: h.ev_out(e.class_index_to_event(l[0], es[:p]))))
+        else:
+            dec.append([])
+    out.append(dec)
+
+    def enc():
+        ins, labels = e.encode(es)
+        return [[_vec(v) for v in ins], [h.lab_out(l) for l in labels]]
+    out.append(_opt(enc))
+
+    def gen():
+        evs = []
+        for l in ls:
+            evs.append(e.class_index_to_event(l, evs))
+        return [h.ev_out(x) for x in evs]
+    out.append(_opt(gen))
+    out.append(_opt(lambda: int(e.labels_to_num_steps(ls))))
+    return out
+
+
+def _np_cfg(c):
+    from note_seq import performance_encoder_decoder as ped
+    try:
+        e = ped.NotePerformanceEventSequenceEncoderDecoder(c['nvb'], c['msh'], c['mdu'], c['minp'], c['maxp'])
+    except AssertionError:
+        return [2], None
+    except ValueError:
+        return [1], None
+    return [0, e.shift_steps_segments, e.shift_steps_per_segment, e.duration_steps_segments,
+            e.duration_steps_per_segment, list(e.num_classes), e.input_size], e
+
+
+# ---------------------------------------------------------------- implementation
+def impl(case):
+    op, a = case['op'], case['input']
+    c = a['cfg']
+    if op == 'noteperf_cfg':
+        return _np_cfg(c)[0]
+    if op == 'noteperf':
+        cfg, e = _np_cfg(c)
+        if e is None:
+            return [cfg]
+        h = _H(e, list(e.num_classes), _npe, _npe_out, tuple, list)
+        return [cfg, _bundle(h, a['es'], a['ps'], a['ls'])]
+    if op == 'conditional':
+        from note_seq import encoder_decoder as ed, melody_encoder_decoder as med
+        ctl = ed.OneHotEventSequenceEncoderDecoder(med.MelodyOneHotEncoding(c['cmn'], c['cmx']))
+        tgt = ed.LookbackEventSequenceEncoderDecoder(med.MelodyOneHotEncoding(c['mn'], c['mx']), list(c['ds']), c['bits'])
+        e = ed.ConditionalEventSequenceEncoderDecoder(ctl, tgt)
+        cs, ts, ps, ls = a['cs'], a['es'], a['ps'], a['ls']
+        out = [e.input_size, e.num_classes]
+        out.append([_opt(lambda: _vec(e.events_to_input(cs, ts, p))) for p in ps])
+        out.append([_opt(lambda: e.events_to_label(ts, p)) for p in ps])
+
+        def enc():
+            ins, labels = e.encode(cs, ts)
+            return [[_vec(v) for v in ins], list(labels)]
+        out.append(_opt(enc))
+
+        def gen():
+            evs = []
+            for l in ls:
+                evs.append(e.class_index_to_event(l, evs))
+            return evs
+        out.append(_opt(gen))
+        out.append(_opt(lambda: int(e.labels_to_num_steps(ls))))
+        return out
+    return _bundle(_handle(op, c), a['es'], a['ps'], a['ls'])
+
+
+# ---------------------------------------------------------------- model
+def model_input(case):
+    op, a = case['op'], case['input']
+    c = a['cfg']
+    k = OPS[op]
+    if op in ('onehot_mel', 'onehotidx_mel'):
+        return [k, c['mn'], c['mx'], a['es'], a['ps'], a['ls']]
+    if op in ('lookback_mel', 'keymelody'):
+        return [k, c['mn'], c['mx'], c['ds'], c['bits'], a['es'], a['ps'], a['ls']]
+    if op == 'onehot_perf':
+        return [k, c['nb'], c['ms'], c['minp'], c['maxp'], a['es'], a['ps'], a['ls']]
+    if op == 'lookback_perf':
+        return [k, c['nb'], c['ms'], c['minp'], c['maxp'], c['ds'], c['bits'], a['es'], a['ps'], a['ls']]
+    if op == 'modulo_perf':
+        return [k, c['nb'], c['ms'], a['es'], a['ps'], a['ls']]
+    if op == 'noteperf':
+        return [k, c['nvb'], c['msh'], c['mdu'], c['minp'], c['maxp'], a['es'], a['ps'], a['ls']]
+    if op == 'noteperf_cfg':
+        return [k, c['nvb'], c['msh'], c['mdu'], c['minp'], c['maxp']]
+    if op == 'pianoroll':
+        return [k, c['size'], a['es'], a['ps'], a['ls']]
+    if op == 'conditional':
+        return [k, c['cmn'], c['cmx'], c['mn'], c['mx'], c['ds'], c['bits'], a['cs'], a['es'], a['ps'], a['ls']]
+    raise ValueError(op)
+
+
+def _modulo_vec(layout, nb, ms):
+    """Rebuild the float vector from the modelled layout with the formulas of PerformanceModuloEncoding.__init__."""
+    size, off, table, row, pc = layout
+    v = [0.0] * size
+    v[off] = 1.0
+    if table == 0:
+        ang = (float(row) * math.pi) / 72.0
+        v[off + 1], v[off + 2] = math.cos(ang), math.sin(ang)
+        ang = (float(pc) * math.pi) / 6.0
+        v[off + 3], v[off + 4] = math.cos(ang), math.sin(ang)
+    elif table == 1:
+        ang = (float(row) * 2.0 * math.pi) / float(ms)
+        v[off + 1], v[off + 2] = math.cos(ang), math.sin(ang)
+    else:
+        ang = (float(row) * 2.0 * math.pi) / float(nb)
+        v[off + 1], v[off + 2] = math.cos(ang), math.sin(ang)
+    return _vec(v)
+
+
+def model_output(case, m):
+    op, a = case['op'], case['input']
+    if op == 'modulo_perf':
+        c = a['cfg']
+        m = list(m)
+        m[2] = [[_modulo_vec(x[0], c['nb'], c['ms'])] if x else [] for x in m[2]]
+        if m[5]:
+            ins, labs = m[5][0]
+            m[5] = [[[_modulo_vec(x, c['nb'], c['ms']) for x in ins], labs]]
+        return m
+    return m
+
+
+# ---------------------------------------------------------------- oracle: the property on the implementation
+def _mel_valid(c):
+    return lambda e: e in (NO_EVENT, NOTE_OFF) or c['mn'] <= e < c['mx']
+
+
+def _perf_valid(c):
+    def ok(e):
+        ty, v = e
+        return ((ty in (T_ON, T_OFF) and c['minp'] <= v <= c['maxp']) or (ty == T_SHIFT and 1 <= v <= c['ms']) or
+                (ty == T_VEL and c['nb'] > 0 and 1 <= v <= c['nb']))
+    return ok
+
+
+def _noteperf_valid(c):
+    def ok(e):
+        return (e[0][0] == T_SHIFT and 0 <= e[0][1] <= c['msh'] and e[1][0] == T_ON and c['minp'] <= e[1][1] <= c['maxp'] and
+                e[2][0] == T_VEL and 1 <= e[2][1] <= c['nvb'] and e[3][0] == T_DUR and 1 <= e[3][1] <= c['mdu'])
+    return ok
+
+
+def _mel_enc(c):
+    return lambda e: e + 2 if e < 0 else e - c['mn'] + 2
+
+
+def _perf_enc(c):
+    def enc(e):
+        ty, v = e
+        w = c['maxp'] - c['minp'] + 1
+        return {T_ON: v - c['minp'], T_OFF: w + v - c['minp'], T_SHIFT: 2 * w + v - 1, T_VEL: 2 * w + c['ms'] + v - 1}[ty]
+    return enc
+
+
+def _expected_lookback_label(es, p, ds, n, default, plain):
+    """The documented precedence: initial default -> last lookback; else the LAST-LISTED matching lookback
+    (= the farthest one for an increasing list); else the plain class."""
+    k = len(ds)
+    if ds and p < ds[-1] and es[p] == default:
+        return n + k - 1
+    for i in reversed(range(k)):
+        if p - ds[i] >= 0 and es[p] == es[p - ds[i]]:
+            return n + i
+    return plain(es[p])
+
+
+def _in_range(l, ncls):
+    if isinstance(ncls, list):
+        return isinstance(l, list) and len(l) == len(ncls) and all(0 <= x < m for x, m in zip(l, ncls))
+    return 0 <= l < ncls
+
+
+def _one_hot_blocks(op, c, ncls, size):
+    """[(start, width)] of the one-hot blocks the property names, or None."""
+    if op in ('onehot_mel', 'onehot_perf'):
+        return [(0, ncls)]
+    if op in ('lookback_mel', 'lookback_perf'):
+        k = len(c['ds'])
+        n = ncls - k
+        return [(i * n, n) for i in range(1 + k)]
+    if op == 'noteperf':
+        out, o = [], 0
+        for w in ncls:
+            out.append((o, w)); o += w
+        return out
+    return None
+
+
+def _steps_of(op, evs):
+    if op in ('onehot_perf', 'lookback_perf', 'modulo_perf'):
+        return sum(v for ty, v in evs if ty == T_SHIFT)
+    if op == 'noteperf':
+        return sum(e[0][1] for e in evs) + (evs[-1][3][1] if evs else 0)
+    return len(evs)
+
+
+def oracle(case, io):
+    op, a = case['op'], case['input']
+    c = a['cfg']
+    if op == 'noteperf_cfg':
+        return _oracle_np_cfg(c, io)
+    if op == 'noteperf':
+        v = _oracle_np_cfg(c, io[0])
+        if v or io[0][0] != 0:
+            return v
+        io = io[1]
+    if op == 'conditional':
+        return _oracle_conditional(case, io)
+    es, ps, ls = a['es'], a['ps'], a['ls']
+    ds = c.get('ds', [])
+    if any(d <= 0 for d in ds):
+        return None                      # outside the property (distances are positive step counts)
+    if op in ('lookback_mel', 'lookback_perf', 'keymelody') and c['bits'] < 0:
+        return None
+    size, ncls, ins, labs, decs, enc, gen, steps = io
+    valid = {'onehot_mel': _mel_valid, 'onehotidx_mel': _mel_valid, 'lookback_mel': _mel_valid, 'keymelody': _mel_valid,
+             'onehot_perf': _perf_valid, 'lookback_perf': _perf_valid,
+             'modulo_perf': lambda c: _perf_valid(dict(c, minp=0, maxp=127)),
+             'noteperf': _noteperf_valid,
+             'pianoroll': lambda c: (lambda e: all(0 <= x < c['size'] for x in e) and
+                                     all(e[i] < e[i + 1] for i in range(len(e) - 1)))}[op](c)
+    if op == 'keymelody' and not (0 <= c['mn'] < c['mx'] <= 128):
+        return None
+    allvalid = all(valid(e) for e in es)
+    where = {'op': op, 'cfg': c}
+    blocks = _one_hot_blocks(op, c, ncls, size)
+    if allvalid:
+        for j, p in enumerate(ps):
+            if not (0 <= p < len(es)):
+                continue
+            # label exists, in range, decodes to the event
+            if not labs[j]:
+                return dict(where, kind='label-raises', position=p, events=es)
+            l = labs[j][0]
+            if not _in_range(l, ncls):
+                return dict(where, kind='label-out-of-range', position=p, events=es, label=l)
+            if not decs[j]:
+                return dict(where, kind='decode-of-label-raises', position=p, events=es, label=l)
+            if decs[j][0] != es[p]:
+                return dict(where, kind='decode-of-label-is-not-the-event', position=p, events=es, label=l,
+                            decoded=decs[j][0])
+            # precedence
+            exp = None
+            if op == 'lookback_mel':
+                exp = _expected_lookback_label(es, p, ds, ncls - len(ds), NO_EVENT, _mel_enc(c))
+            elif op == 'lookback_perf':
+                exp = _expected_lookback_label([tuple(e) for e in es], p, ds, ncls - len(ds), (T_SHIFT, c['ms']),
+                                               _perf_enc(c))
+            elif op == 'keymelody':
+                nr = c['mx'] - c['mn']
+                exp = _expected_lookback_label(es, p, ds, nr + 2, NO_EVENT,
+                                               lambda e: nr + 1 if e == NOTE_OFF else nr if e == NO_EVENT else e - c['mn'])
+            elif op in ('onehot_mel', 'onehotidx_mel'):
+                exp = _mel_enc(c)(es[p])
+            elif op in ('onehot_perf', 'modulo_perf'):
+                exp = _perf_enc(dict(c, minp=c.get('minp', 0), maxp=c.get('maxp', 127)))(es[p])
+            if exp is not None and l != exp:
+                return dict(where, kind='label-not-the-documented-precedence', position=p, events=es, label=l, expected=exp)
+            # input shape
+            if not ins[j]:
+                return dict(where, kind='input-raises', position=p, events=es)
+            n, nzs = ins[j][0]
+            if n != size:
+                return dict(where, kind='input-length-is-not-input-size', position=p, events=es, length=n, input_size=size)
+            if blocks is not None:
+                v = _dense(ins[j][0])
+                for (st, w) in blocks:
+                    blk = v[st:st + w]
+                    if sorted(blk) != [0] * (w - 1) + [1]:
+                        return dict(where, kind='one-hot-block-not-one-hot', position=p, events=es, block=[st, w])
+        # encode: len-1 aligned pairs
+        if not enc:
+            return dict(where, kind='encode-raises', events=es)
+        e_ins, e_labs = enc[0]
+        m = max(len(es) - 1, 0)
+        if len(e_ins) != m or len(e_labs) != m:
+            return dict(where, kind='encode-not-len-minus-1-pairs', events=es, got=[len(e_ins), len(e_labs)])
+        pos = {p: j for j, p in enumerate(ps)}
+        for i in range(m):
+            if i in pos and ins[pos[i]] and e_ins[i] != ins[pos[i]][0]:
+                return dict(where, kind='encode-input-misaligned', events=es, index=i)
+            if i + 1 in pos and labs[pos[i + 1]] and e_labs[i] != labs[pos[i + 1]][0]:
+                return dict(where, kind='encode-label-misaligned', events=es, index=i)
+        # decoding the labels the encoder produced reconstructs the sequence (generation loop from the first event)
+        if es:
+            h = _handle_for(case)
+            try:
+                evs = [h.ev_in(es[0])]
+                for l in e_labs:
+                    evs.append(h.ed.class_index_to_event(h.lab_in(l), evs))
+                back = [h.ev_out(x) for x in evs]
+            except Exception as ex:  # noqa
+                return dict(where, kind='generation-from-encoded-labels-raises', events=es, exc=type(ex).__name__)
+            if back != es:
+                return dict(where, kind='generation-from-encoded-labels-differs', events=es, got=back)
+    # generation loop over arbitrary in-range labels
+    if all(_in_range(l, ncls) for l in ls):
+        if not gen:
+            return dict(where, kind='generation-raises-on-in-range-labels', labels=ls)
+        if len(gen[0]) != len(ls):
+            return dict(where, kind='generation-length', labels=ls)
+        if not steps:
+            return dict(where, kind='labels-to-num-steps-raises', labels=ls, n_labels=len(ls))
+        if steps[0] != _steps_of(op, gen[0]):
+            return dict(where, kind='labels-to-num-steps-differs', labels=ls, got=steps[0], expected=_steps_of(op, gen[0]))
+    return None
+
+
+def _handle_for(case):
+    op, c = case['op'], case['input']['cfg']
+    if op == 'noteperf':
+        e = _np_cfg(c)[1]
+        return _H(e, list(e.num_classes), _npe, _npe_out, tuple, list)
+    return _handle(op, c)
+
+
+def _proper_divisor(s):
+    return any(s % i == 0 for i in range(2, s))
+
+
+def _oracle_np_cfg(c, cfg):
+    s1, s2 = c['msh'] + 1, c['mdu']
+    should_accept = s1 >= 2 and s2 >= 2 and _proper_divisor(s1) and _proper_divisor(s2)
+    if cfg[0] != 0:
+        if should_accept:
+            return {'kind': 'noteperf-constructor-rejects-factorable-limits', 'cfg': c}
+        return None
+    if not should_accept:
+        return {'kind': 'noteperf-constructor-accepts-prime-limit', 'cfg': c}
+    _, ss, sp, dseg, dp, ncls, size = cfg
+    if ss * sp != s1 or dseg * dp != s2 or ss <= 1 or dseg <= 1:
+        return {'kind': 'noteperf-segments-do-not-factor', 'cfg': c, 'got': cfg}
+    if ncls != [ss, sp, c['maxp'] - c['minp'] + 1, c['nvb'], dseg, dp] or size != sum(ncls):
+        return {'kind': 'noteperf-class-sizes', 'cfg': c, 'got': cfg}
+    return None
+
+
+def _oracle_conditional(case, io):
+    from note_seq import encoder_decoder as ed, melody_encoder_decoder as med
+    a = case['input']
+    c = a['cfg']
+    if any(d <= 0 for d in c['ds']) or c['bits'] < 0:
+        return None
+    cs, ts, ps, ls = a['cs'], a['es'], a['ps'], a['ls']
+    size, ncls, ins, labs, enc, gen, steps = io
+    ctl = ed.OneHotEventSequenceEncoderDecoder(med.MelodyOneHotEncoding(c['cmn'], c['cmx']))
+    tgt = ed.LookbackEventSequenceEncoderDecoder(med.MelodyOneHotEncoding(c['mn'], c['mx']), list(c['ds']), c['bits'])
+    where = {'op': 'conditional', 'cfg': c}
+    if size != ctl.input_size + tgt.input_size:
+        return dict(where, kind='conditional-input-size')
+    if ncls != tgt.num_classes:
+        return dict(where, kind='conditional-num-classes')
+    cv = lambda e: e in (NO_EVENT, NOTE_OFF) or c['cmn'] <= e < c['cmx']
+    tv = _mel_valid(c)
+    if not (all(cv(e) for e in cs) and all(tv(e) for e in ts)):
+        return None
+    for j, p in enumerate(ps):
+        if 0 <= p < len(ts):
+            if not labs[j] or labs[j][0] != tgt.events_to_label(ts, p):
+                return dict(where, kind='conditional-label-is-not-target-label', position=p, cs=cs, events=ts)
+        if 0 <= p < len(ts) and 0 <= p + 1 < len(cs):
+            exp = _vec(list(ctl.events_to_input(cs, p + 1)) + list(tgt.events_to_input(ts, p)))
+            if not ins[j] or ins[j][0] != exp:
+                return dict(where, kind='conditional-input-is-not-control-next-plus-target', position=p, cs=cs, events=ts)
+            if ins[j][0][0] != size:
+                return dict(where, kind='input-length-is-not-input-size', position=p, cs=cs, events=ts)
+    if len(cs) != len(ts):
+        if enc:
+            return dict(where, kind='conditional-encode-accepts-unequal-lengths', cs=cs, events=ts)
+    else:
+        if not enc:
+            return dict(where, kind='encode-raises', cs=cs, events=ts)
+        e_ins, e_labs = enc[0]
+        m = max(len(ts) - 1, 0)
+        if len(e_ins) != m or len(e_labs) != m:
+            return dict(where, kind='encode-not-len-minus-1-pairs', cs=cs, events=ts)
+        for i in range(m):
+            if e_labs[i] != tgt.events_to_label(ts, i + 1):
+                return dict(where, kind='encode-label-misaligned', cs=cs, events=ts, index=i)
+            if e_ins[i] != _vec(list(ctl.events_to_input(cs, i + 1)) + list(tgt.events_to_input(ts, i))):
+                return dict(where, kind='encode-input-misaligned', cs=cs, events=ts, index=i)
+        if ts:
+            evs = [ts[0]]
+            for l in e_labs:
+                evs.append(tgt.class_index_to_event(l, evs))
+            if evs != ts:
+                return dict(where, kind='generation-from-encoded-labels-differs', cs=cs, events=ts, got=evs)
+    if all(0 <= l < ncls for l in ls):
+        if not gen or len(gen[0]) != len(ls):
+            return dict(where, kind='generation-raises-on-in-range-labels', labels=ls)
+        if not steps or steps[0] != len(ls):
+            return dict(where, kind='labels-to-num-steps-differs', labels=ls)
+    return None
+
+
+def nontrivial(case, io):
+    op = case['op']
+    if op == 'noteperf_cfg':
+        return io[0] == 0
+    if op == 'noteperf':
+        if io[0][0] != 0:
+            return False
+        io = io[1]
+    if op == 'conditional':
+        return len(case['input']['es']) >= 2 and any(io[3])
+    return len(case['input']['es']) >= 2 and any(io[4])
+
+
+# ---------------------------------------------------------------- generators
+def _gen_dists(rng, maxd=12):
+    r = rng.random()
+    if r < 0.05:
+        return []
+    k = rng.choice([1, 1, 2, 2, 2, 3, 4])
+    ds = [rng.randint(1, maxd) for _ in range(k)]
+    r = rng.random()
+    if r < 0.5:
+        ds = sorted(set(ds))
+    elif r < 0.65:
+        ds = sorted(ds, reverse=True)
+    if rng.random() < 0.1:
+        ds.append(rng.choice([16, 32, 150]))       # longer than most sequences
+    return ds
+
+
+def _gen_seq(rng, alphabet, ds, maxlen, default=None):
+    """Random sequence with repeats planted at the lookback distances (and runs of the default event)."""
+    n = rng.choice([0, 1, 2, 3, 5, 8, 13, 21]) if rng.random() < 0.8 else rng.randint(0, maxlen)
+    n = min(n, maxlen)
+    es = []
+    p_rep = rng.choice([0.0, 0.3, 0.6, 0.9])
+    p_def = rng.choice([0.0, 0.2, 0.5])
+    for i in range(n):
+        r = rng.random()
+        if ds and r < p_rep:
+            d = rng.choice(ds)
+            if 0 <= i - d < i:
+                es.append(es[i - d]); continue
+        if default is not None and rng.random() < p_def:
+            es.append(default); continue
+        es.append(rng.choice(alphabet))
+    return es
+
+
+def _positions(rng, n):
+    ps = list(range(n))
+    if rng.random() < 0.15:
+        ps += [n]
+    if rng.random() < 0.1:
+        ps += [-1]
+    return ps
+
+
+def _labels(rng, ncls, maxn=12, p_bad=0.06):
+    k = rng.choice([0, 1, 2, 3, 6, maxn])
+    ls = [rng.randrange(ncls) if ncls > 0 else 0 for _ in range(k)]
+    if ls and rng.random() < p_bad:
+        ls[rng.randrange(len(ls))] = rng.choice([-1, ncls, ncls + 3])
+    return ls
+
+
+def _mel_alphabet(mn, mx, rng, p_bad=0.0):
+    al = [NO_EVENT, NOTE_OFF] + list(range(mn, mx))
+    if len(al) > 8:
+        al = [NO_EVENT, NOTE_OFF] + rng.sample(range(mn, mx), 5) + [mn, mx - 1]
+    if rng.random() < p_bad:
+        al.append(rng.choice([mn - 1, mx, -3, 128]))
+    return al
+
+
+def _mel_cfg(rng):
+    mn, mx = rng.choice([(48, 84), (0, 128), (60, 61), (0, 1), (127, 128), (21, 109), (0, 12), (59, 62)])
+    return mn, mx
+
+
+def _perf_cfg(rng):
+    nb = rng.choice([0, 0, 1, 8, 32, 127])
+    ms = rng.choice([1, 2, 10, 100])
+    minp, maxp = rng.choice([(0, 127), (21, 108), (60, 60), (59, 62)])
+    return nb, ms, minp, maxp
+
+
+def _perf_alphabet(rng, nb, ms, minp, maxp, p_bad=0.0):
+    al = [[T_ON, rng.randint(minp, maxp)] for _ in range(3)] + [[T_OFF, rng.randint(minp, maxp)] for _ in range(2)]
+    al += [[T_SHIFT, ms], [T_SHIFT, rng.randint(1, ms)], [T_SHIFT, 1]]
+    if nb > 0:
+        al += [[T_VEL, rng.randint(1, nb)], [T_VEL, nb]]
+    if rng.random() < p_bad:
+        al.append(rng.choice([[T_VEL, 1 if nb == 0 else min(nb + 1, 127)], [T_DUR, 3], [T_SHIFT, ms + 1], [T_SHIFT, 0],
+                              [T_ON, (maxp + 1) % 128]]))
+    return al
+
+
+def _case(op, cfg, es, ps, ls, **kw):
+    d = {'cfg': cfg, 'es': es, 'ps': ps, 'ls': ls}
+    d.update(kw)
+    return {'op': op, 'input': d}
+
+
+def _exhaustive(maxlen_lb, maxlen_km):
+    out = []
+    dlists = [list(p) for r in range(0, 4) for p in itertools.permutations([1, 2, 3], r)]
+    syms = [NO_EVENT, NOTE_OFF, 60]
+    for n in range(0, max(maxlen_lb, maxlen_km) + 1):
+        for es in itertools.product(syms, repeat=n):
+            es = list(es)
+            for ds in dlists:
+                if n <= maxlen_lb:
+                    out.append(_case('lookback_mel', {'mn': 60, 'mx': 61, 'ds': ds, 'bits': 2}, es, list(range(n)),
+                                     [(x + 2) % (3 + len(ds)) for x in es]))
+                if n <= maxlen_km:
+                    out.append(_case('keymelody', {'mn': 60, 'mx': 61, 'ds': ds, 'bits': 2}, es, list(range(n)),
+                                     [(x + 2) % (3 + len(ds)) for x in es]))
+    return out
+
+
+def cases(rng, tier, n=None):
+    thorough = tier == 'thorough'
+    mult = 12 if thorough else 1
+    maxlen = 100
+    out = []
+    for _ in range(220 * mult):          # lookback over the melody one-hot
+        mn, mx = _mel_cfg(rng)
+        ds = _gen_dists(rng)
+        if rng.random() < 0.03:
+            ds = ds + [rng.choice([0, -1])]
+        bits = rng.choice([0, 1, 2, 5, 7, 8]) if rng.random() < 0.97 else -1
+        es = _gen_seq(rng, _mel_alphabet(mn, mx, rng, 0.06), ds, maxlen, NO_EVENT)
+        out.append(_case('lookback_mel', {'mn': mn, 'mx': mx, 'ds': ds, 'bits': bits}, es, _positions(rng, len(es)),
+                         _labels(rng, mx - mn + 2 + len(ds))))
+    for _ in range(160 * mult):          # key melody
+        mn, mx = _mel_cfg(rng)
+        ds = _gen_dists(rng)
+        bits = rng.choice([0, 1, 2, 5, 7, 8])
+        es = _gen_seq(rng, _mel_alphabet(mn, mx, rng, 0.04), ds, 60, NO_EVENT)
+        out.append(_case('keymelody', {'mn': mn, 'mx': mx, 'ds': ds, 'bits': bits}, es, _positions(rng, len(es)),
+                         _labels(rng, mx - mn + 2 + len(ds))))
+    for _ in range(70 * mult):           # plain one-hot and one-hot index
+        mn, mx = _mel_cfg(rng)
+        es = _gen_seq(rng, _mel_alphabet(mn, mx, rng, 0.08), [], maxlen)
+        op = rng.choice(['onehot_mel', 'onehotidx_mel'])
+        out.append(_case(op, {'mn': mn, 'mx': mx}, es, _positions(rng, len(es)), _labels(rng, mx - mn + 2)))
+    for _ in range(120 * mult):          # performance one-hot: plain, lookback, modulo
+        nb, ms, minp, maxp = _perf_cfg(rng)
+        op = rng.choice(['onehot_perf', 'lookback_perf', 'lookback_perf', 'modulo_perf'])
+        cfg = {'nb': nb, 'ms': ms, 'minp': minp, 'maxp': maxp}
+        ds = []
+        if op == 'modulo_perf':
+            minp, maxp = 0, 127
+            cfg = {'nb': nb, 'ms': ms}
+        if op == 'lookback_perf':
+            ds = _gen_dists(rng, 6)
+            cfg['ds'] = ds
+            cfg['bits'] = rng.choice([0, 3, 5])
+        ncls = 2 * (maxp - minp + 1) + ms + nb + len(ds)
+        es = _gen_seq(rng, _perf_alphabet(rng, nb, ms, minp, maxp, 0.08), ds, 40, [T_SHIFT, ms])
+        out.append(_case(op, cfg, es, _positions(rng, len(es)), _labels(rng, ncls)))
+    for _ in range(90 * mult):           # note performance
+        nvb = rng.choice([1, 4, 32, 127]) if rng.random() < 0.95 else 0
+        msh = rng.choice([3, 7, 8, 11, 15, 99, 1000])
+        mdu = rng.choice([4, 6, 9, 16, 100, 1000])
+        minp, maxp = rng.choice([(0, 127), (21, 108), (60, 60)])
+        cfg = {'nvb': nvb, 'msh': msh, 'mdu': mdu, 'minp': minp, 'maxp': maxp}
+        al = []
+        for _k in range(5):
+            al.append([[T_SHIFT, rng.choice([0, msh, rng.randint(0, msh)])], [T_ON, rng.randint(minp, maxp)],
+                       [T_VEL, rng.randint(1, max(nvb, 1))], [T_DUR, rng.choice([1, mdu, rng.randint(1, mdu)])]])
+        if rng.random() < 0.06:
+            al.append([[T_SHIFT, msh + 1], [T_ON, minp], [T_VEL, min(nvb + 1, 127)], [T_DUR, mdu + 1]])
+        es = _gen_seq(rng, al, [], 20)
+        s1, s2 = msh + 1, mdu
+        divs = lambda s: [i for i in range(1, s) if s % i == 0]
+        seg = lambda s: min(divs(s), key=lambda i: i + s // i) if divs(s) else 1
+        ncls = [seg(s1), s1 // seg(s1), maxp - minp + 1, nvb, seg(s2), s2 // seg(s2)]
+        ls = [[rng.randrange(max(m, 1)) for m in ncls] for _k in range(rng.choice([0, 0, 1, 2, 5]))]
+        if ls and rng.random() < 0.05:
+            ls[0][rng.randrange(6)] = -1
+        out.append(_case('noteperf', cfg, es, _positions(rng, len(es)), ls))
+    for s in (list(range(-1, 40)) if not thorough else list(range(-1, 400))):     # constructor: every small limit
+        out.append({'op': 'noteperf_cfg', 'input': {'cfg': {'nvb': 4, 'msh': s, 'mdu': 16, 'minp': 0, 'maxp': 127}}})
+        out.append({'op': 'noteperf_cfg', 'input': {'cfg': {'nvb': 4, 'msh': 15, 'mdu': s + 1, 'minp': 0, 'maxp': 127}}})
+    for _ in range(90 * mult):           # pianoroll
+        size = rng.choice([0, 1, 2, 5, 8, 12, 88])
+        al = [sorted(rng.sample(range(size), rng.randint(0, min(size, 5)))) for _k in range(4)] + [[]]
+        if rng.random() < 0.08:
+            al.append(rng.choice([[size], [0, 0] if size else [0], [-1], [1, 0]]))
+        es = _gen_seq(rng, al, [], 20)
+        ls = [rng.randrange(2 ** size) for _k in range(rng.choice([0, 1, 3, 6]))]
+        if ls and rng.random() < 0.08:
+            ls[0] = rng.choice([-1, 2 ** size])
+        out.append(_case('pianoroll', {'size': size}, es, _positions(rng, len(es)), ls))
+    for _ in range(80 * mult):           # conditional wrapper
+        cmn, cmx = _mel_cfg(rng)
+        mn, mx = _mel_cfg(rng)
+        ds = _gen_dists(rng)
+        bits = rng.choice([0, 2, 5])
+        ts = _gen_seq(rng, _mel_alphabet(mn, mx, rng, 0.03), ds, 30, NO_EVENT)
+        r = rng.random()
+        nc = len(ts) if r < 0.7 else len(ts) + 1 if r < 0.9 else max(len(ts) - 1, 0)
+        cal = _mel_alphabet(cmn, cmx, rng, 0.03)
+        cs = [rng.choice(cal) for _k in range(nc)]
+        out.append(_case('conditional', {'cmn': cmn, 'cmx': cmx, 'mn': mn, 'mx': mx, 'ds': ds, 'bits': bits}, ts,
+                         _positions(rng, len(ts)), _labels(rng, mx - mn + 2 + len(ds)), cs=cs))
+    out += _exhaustive(8, 6) if thorough else _exhaustive(4, 3)
+    if n is not None:
+        rng.shuffle(out)
+        out = out[:n]
+    return out
+
+
+def corpus():
+    """Boundary cases and the two defects found while building the check (always run first)."""
+    out = []
+    # F17a: KeyMelodyEncoderDecoder with an empty lookback list
+    out.append(_case('keymelody', {'mn': 48, 'mx': 84, 'ds': [], 'bits': 3}, [60, 60, -2, -1], [0, 1, 2, 3], [0, 36, 37]))
+    # F17b: NotePerformance labels_to_num_steps([])
+    out.append(_case('noteperf', {'nvb': 4, 'msh': 15, 'mdu': 16, 'minp': 0, 'maxp': 127},
+                     [[[T_SHIFT, 3], [T_ON, 60], [T_VEL, 1], [T_DUR, 2]]], [0], []))
+    # the docstring example of the lookback encoder: default event before the first lookback, both lookbacks matching
+    out.append(_case('lookback_mel', {'mn': 48, 'mx': 84, 'ds': [2, 4], 'bits': 5},
+                     [-2, -2, 60, -1, 60, -1, 60, 62, 60], list(range(9)), [38, 39, 2, 0, 39]))
+    # unsorted list, duplicate distances, distance longer than the sequence, pitch 0 (falsy current_note)
+    out.append(_case('lookback_mel', {'mn': 0, 'mx': 128, 'ds': [4, 2, 2, 50], 'bits': 0}, [0, 5, 0, 5, 0, 5, -2],
+                     list(range(7)), [130, 131, 132, 133]))
+    out.append(_case('keymelody', {'mn': 0, 'mx': 12, 'ds': [3, 1], 'bits': 8}, [0, -2, -1, 0, 0, 11, 0], list(range(7)),
+                     [12, 13, 14, 15, 0]))
+    out.append(_case('pianoroll', {'size': 5}, [[0, 4], [], [0, 1, 2, 3, 4]], [0, 1, 2], [0, 31, 17]))
+    return out
+
+
+def shrink(case):
+    op, a = case['op'], case['input']
+    if 'es' not in a:
+        return
+    es, ls = a['es'], a['ls']
+    for i in range(len(es)):
+        es2 = es[:i] + es[i + 1:]
+        b = dict(a, es=es2, ps=list(range(len(es2))))
+        if 'cs' in a:
+            b['cs'] = a['cs'][:i] + a['cs'][i + 1:] if len(a['cs']) > i else a['cs']
+        yield {'op': op, 'input': b}
+    for i in range(len(ls)):
+        yield {'op': op, 'input': dict(a, ls=ls[:i] + ls[i + 1:])}
+    ds = a['cfg'].get('ds')
+    if ds:
+        for i in range(len(ds)):
+            yield {'op': op, 'input': dict(a, cfg=dict(a['cfg'], ds=ds[:i] + ds[i + 1:]), ls=[])}
+
+
+META = {
+    'level_text': ('Theorems for ALL event sequences / positions / lookback lists / label lists (induction, lia), generic in the '
+                   'event type and the wrapped one-hot encoding: label decodes to the event against the history, documented '
+                   'precedence, label range, input shape, encode alignment, totality of the generation loop, and the '
+                   'round trip generate(encode(es).labels, [es[0]]) = es; instantiated for the lookback, key-melody, '
+                   'one-hot, one-hot-index, conditional, note-performance and pianoroll encoders. The models are tied to '
+                   'the real encoder objects by a differential run over generated and exhaustive small histories.'),
+    'level_note': ('Trusted: Coq kernel; the hand-written models in Model/{EncDec,Lookback,KeyMelody,NotePerfEnc,PianorollEnc}.v '
+                   '(tied by correspondence only); float cos/sin entries of the modulo-performance input are rebuilt by the '
+                   'harness from the modelled layout. The model follows note_seq with notes/C08-fix-1/2.diff applied.'),
+}
